@@ -17,6 +17,18 @@ try:
     if change.startswith('-R:'):
         diff = subprocess.check_output(['git', '-C', '/repo', 'show', change[3:]])
         subprocess.run(['git', '-C', wt, 'apply', '-R'], input=diff, check=True)
+    elif change.startswith('json:'):
+        import json
+        for ed in json.load(open(change[5:])):
+            hit = 0
+            for f in ed['files']:
+                p = os.path.join(wt, f)
+                t = open(p, encoding='utf-8').read()
+                if ed['old'] in t:
+                    t = t.replace(ed['old'], ed['new'], ed.get('count', 1)); hit += 1
+                    open(p, 'w', encoding='utf-8').write(t)
+            if not hit:
+                print('%s: pattern not found: %r' % (name, ed['old'][:60])); sys.exit(2)
     elif change.startswith('sed:'):
         _, files, expr = change.split(':', 2)
         for f in files.split(','):
